@@ -382,13 +382,13 @@ def histories_for_case(case: dict, rng: random.Random, scheme: str, idx: int = 0
                                                      for o in sorted(cuts) if cuts[o]], v))
         # the same description with a fault plan on its user functions.  Plan, variant and cuts rotate with the case index and
         # the order: over the universe every plan meets every variant and every dag variant / calling convention many times
-        # (scheme "full": all variants per order, the plan rotates)
+        # (scheme "full": one per order; "lean": one in every third order)
         if scheme == "full" or oi % 3 == 1:
             plans = fault_plans(n)
             outs_c = [o for o in sorted(cuts) if cuts[o]]
-            for vi, variant in enumerate(FAULT_VARIANTS if scheme == "full" else [FAULT_VARIANTS[(idx + oi // 3) % 3]]):
-                v = idx + oi + vi
-                plan = plans[(idx + 3 * oi + 2 * vi) % len(plans)]
+            for vi, variant in enumerate([FAULT_VARIANTS[(idx + oi + oi // 3) % 3]]):
+                v = idx // 3 + oi + vi
+                plan = plans[(idx // 3 + 2 * oi) % len(plans)]
                 seq = outs_c[::-1] if (variant == "share") == (v % 4 != 3) else outs_c      # share: mostly consumers first
                 items = [(o, [[x, pcall.kv(x)] for x in
                               (root_cut(tdesc, cuts[o]) if variant == "cached" or (v + j) % 2 == 0 else cuts[o][(v + j) % len(cuts[o])])])
@@ -435,10 +435,12 @@ def fault_history(tdesc: dict, order: tuple, plan: dict, variant: str, items: li
     retry : per item three evaluate() calls on ONE handle (first item: next to three eager calls of the twin)
     share : the items as successive handles of ONE construct_dag() block, the first abandoned after a single evaluate()
             (the later ones share its nodes, the one that raised included), then the first item again outside any block
-    cached: the pipeline has a user cache; per item a handle abandoned after a single evaluate(), then a handle for the same
+    cached: the pipeline has a user cache (every function cached); per item a handle abandoned after a single evaluate(), then a handle for the same
             inputs (which finds the earlier handle's nodes in the cache) evaluated twice"""
     n = len(tdesc["funcs"])
-    tc = with_cache(tdesc, ["first", "all", "last"][k % 3], "lru" if k % 5 == 4 else "simple") if variant == "cached" else tdesc
+    # (every function cached: a cached consumer of an uncached producer keeps a producer node of its own, next to the one a
+    # later full_output call creates - lazy x partial user cache is C09's subject, see the assumptions)
+    tc = with_cache(tdesc, "all", "lru" if k % 5 == 4 else "simple") if variant == "cached" else tdesc
     pd = pcall.tla_desc_to_py(tc)
     for i, kind in plan.items():
         pd["funcs"][i]["fail"] = {"when": 0 if kind == 1 else "*", "cls": FAULT_CLS, "args": ["fault in " + pd["funcs"][i]["name"]]}
@@ -460,9 +462,9 @@ def fault_history(tdesc: dict, order: tuple, plan: dict, variant: str, items: li
     else:
         for j, (o, kw) in enumerate(items):
             kk = k + j
-            evs += block_history(lpl, [(o, kw, MODES[kk % 4], 1)], "in" if kk % 3 == 2 else "off", kk)
             # (no construct_dag() here: which nodes of a recorded graph may be old is stated in terms of completed
             # invocations - memo - and the cache also holds the nodes of a handle that never completed)
+            evs += block_history(lpl, [(o, kw, MODES[kk % 4], 1)], "off", kk)
             evs += block_history(lpl, [(o, kw, MODES[(kk + kk // 4) % 4], 2)], "off", kk)
     return {"desc": t2, "ev": evs, "order": list(order), "cached": variant == "cached", "fault": variant}
 
@@ -799,12 +801,13 @@ def run(ctx: Ctx) -> None:
             mc("LBSpec N=2, valid cuts, user cache (first / all functions flagged)", "b2c", 4, modes='{"call"}', ucache="TRUE",
                n=2, rich="FALSE", maxev=2, allkw="FALSE", maxh=1)
             # fault plans (FaultChoice: each function raising once / always, all raising once): evaluate() calls that raise
-            # followed by further ones; quick: one quarter of the description universe (DescHash), pipeline() convention
+            # followed by further ones; quick: one eighth of the description universe (DescHash, the part rotates with the
+            # seed), pipeline() convention; thorough: all of it
             mc("LBSpec N=2, valid cuts, fault plans, up to 2 evaluate() calls that raise per handle", "b2f", 2, heap="2g",
-               nshards=4, shards=[ctx.seed % 4], modes='{"call"}', faults="TRUE", maxfail=2, n=2, rich="FALSE", maxev=2,
+               nshards=8, shards=[ctx.seed % 8], modes='{"call"}', faults="TRUE", maxfail=2, n=2, rich="FALSE", maxev=2,
                allkw="FALSE", maxh=1)
-            mc("EBSpec N=2, valid cuts, fault plans: the eager twin", "e2f", 1, heap="1g", faults="TRUE", maxfail=2,
-               spec="EBSpec", n=2, rich="FALSE", maxev=2, allkw="FALSE", maxh=1)
+            mc("EBSpec N=2, valid cuts, fault plans: the eager twin", "e2f", 1, heap="1g", nshards=4, shards=[ctx.seed % 4],
+               modes='{"call"}', faults="TRUE", maxfail=2, spec="EBSpec", n=2, rich="FALSE", maxev=2, allkw="FALSE", maxh=1)
             exports = [("LUSpec N=2", dict(n=2, rich="FALSE"), "u2", "3g", "full")]
         else:
             mc("LBSpec N=2 rich, all keyword sets, 3 evaluates", "b2r", 3, n=2, rich="TRUE", maxev=3, allkw="TRUE", maxh=1)
